@@ -94,7 +94,13 @@ class DecShapes:
         return w
 
     def term_shape(self, term, impl, fn, value=None):
-        its = [e for e in items(term)]
+        its = []
+        for e in items(term):
+            # an inlined helper that is not one of the known kernels is part of the sequence it was called in
+            if e[0] == 'HELPER' and not any(y[0] == 'RET' for y in sym.walk(e[2])):
+                its.extend(items(e[2]))
+            else:
+                its.append(e)
         out = []
         i = 0
         n = len(its)
